@@ -264,6 +264,8 @@ def check_discipline(case, impl):
         elif c in "+-":
             if "~" in e:
                 return "reference count update %s is not AcqRel (event %d)" % (e, k)
+        elif c == "?":
+            return "the reference count is read by a plain load (%s, event %d): a decision taken on it can be stale by the time it is acted on" % (e, k)
         elif c == "F":
             freed.add(e[1:])
         if c in "RWrwa" and e[1:].split(".")[0] in freed:
